@@ -28,6 +28,12 @@ def base_stream(rng, meta):
             fl = rng.random()
             fr = S.call_bytes(rng, rng.choice(known + [b"org.varlink.service.GetInfo", b"zz", b"no.such.M"]),
                               rng.choice([None, b"{}", J.text_of(rng, None, 1)]), fl < 0.2, 0.2 <= fl < 0.4, 0.4 <= fl < 0.5)
+        elif r < 0.62:
+            # a complete well-formed value followed by more bytes inside the same frame: not valid JSON as a whole
+            fr = S.call_bytes(rng, rng.choice(known + [b"org.varlink.service.GetInfo"]), rng.choice([None, b"{}"]), False, False, False) + \
+                rng.choice([b" junk", b"]", b"}", b",", b"{}", b" null", b"\n{\"method\":\"org.varlink.service.GetInfo\"}", b"\x01", b" \xff", b"0"])
+            if rng.random() < 0.2:
+                fr = rng.choice([b"null null", b"null,", b"{}{}", b"{} x"])
         elif r < 0.7:
             fr = J.mutate(rng, S.call_bytes(rng, rng.choice(known), b"{}", False, False, False), rng.choice([1, 2]))
         elif r < 0.85:
